@@ -65,6 +65,13 @@ pub struct Choice {
     pub v: u32,
 }
 
+thread_local! {
+    /// every outcome drawn by the world currently running on this thread: lets the runner
+    /// recover the choice list of a world that ended in a panic (the chooser itself is lost
+    /// during unwinding)
+    pub static DRAWN: std::cell::RefCell<Vec<u32>> = const { std::cell::RefCell::new(Vec::new()) };
+}
+
 enum Mode {
     Gen(Rng),
     Replay { vals: Vec<u32>, pos: usize },
@@ -107,6 +114,7 @@ impl Chooser {
         };
         debug_assert!(v < n);
         self.rec.push(Choice { site, n, v });
+        DRAWN.with(|d| d.borrow_mut().push(v));
         v
     }
 
